@@ -104,11 +104,42 @@ func (r *replica) restoreBytes(b []byte) error {
 }
 
 // ---------------- ACL resolver used by the materializers ----------------
-// Event filtering by permission is C09's subject; here every token may read everything, so that
-// what a subscriber holds is exactly what the stream delivered.
-type allowAll struct{}
+// Two kinds of clients: the anonymous token and token A may read everything; token B resolves to a
+// real policy authorizer with PARTIAL visibility (service "web" and its sidecar name, nodes n2 and
+// n1x only), so that one batch of events can be partly visible to one subscriber and fully visible
+// to another one reading the same buffer / cached snapshot. What a restricted client must hold is the
+// direct query result filtered with the same authorizer methods the endpoints' result filter uses.
+const restrictedRules = `
+service "web" { policy = "read" }
+service "web-sidecar-proxy" { policy = "read" }
+node "n2" { policy = "read" }
+node "n1x" { policy = "read" }
+`
 
-func (allowAll) ResolveTokenAndDefaultMeta(string, *acl.EnterpriseMeta, *acl.AuthorizerContext) (resolver.Result, error) {
+var restrictedAuthz = func() acl.Authorizer {
+	a, err := acl.NewAuthorizerFromRules(restrictedRules, nil, nil)
+	if err != nil {
+		panic(err)
+	}
+	return a
+}()
+
+func isRestricted(token string) bool { return token == secretB }
+
+// authzFor returns nil for a client that may read everything
+func authzFor(token string) acl.Authorizer {
+	if isRestricted(token) {
+		return restrictedAuthz
+	}
+	return nil
+}
+
+type tokenACL struct{}
+
+func (tokenACL) ResolveTokenAndDefaultMeta(token string, _ *acl.EnterpriseMeta, _ *acl.AuthorizerContext) (resolver.Result, error) {
+	if isRestricted(token) {
+		return resolver.Result{Authorizer: restrictedAuthz}, nil
+	}
 	return resolver.Result{Authorizer: acl.ManageAll()}, nil
 }
 
@@ -193,7 +224,7 @@ type subject struct {
 	Class   string // health | connect | config | config-list | service-list  (used in violation keys)
 	newView func() submatview.View
 	request func(token string) func(index uint64) *pbsubscribe.SubscribeRequest
-	direct  func(s *state.Store) (uint64, string) // index and canonical rendering of the equivalent direct query
+	direct  func(s *state.Store, authz acl.Authorizer) (uint64, string) // index and canonical rendering of the equivalent direct query (authz != nil: filtered like the endpoint does)
 	render  func(v any) string                    // canonical rendering of view.Result(..)
 	aux     func(s *state.Store) string           // optional: extra facts recorded per commit, used only to NAME the cause of a mismatch
 }
@@ -227,7 +258,7 @@ func healthSubject(svc, peer string, connect bool) *subject {
 			r.Token = token
 			return health.NewMaterializerRequest(r)
 		},
-		direct: func(s *state.Store) (uint64, string) {
+		direct: func(s *state.Store, authz acl.Authorizer) (uint64, string) {
 			var idx uint64
 			var nodes structs.CheckServiceNodes
 			var err error
@@ -240,13 +271,17 @@ func healthSubject(svc, peer string, connect bool) *subject {
 				return idx, "error: " + err.Error()
 			}
 			// what the Health endpoint applies to every answer before it leaves the server
-			cp := make(structs.CheckServiceNodes, len(nodes))
+			cp := make(structs.CheckServiceNodes, 0, len(nodes))
 			for i := range nodes {
-				cp[i] = nodes[i]
-				if nodes[i].Service != nil {
-					s := *nodes[i].Service
-					cp[i].Service = &s
+				n := nodes[i]
+				if authz != nil && n.CanRead(authz) != acl.Allow {
+					continue
 				}
+				if n.Service != nil {
+					s := *n.Service
+					n.Service = &s
+				}
+				cp = append(cp, n)
 			}
 			adapter.PopulateLegacyCheckServiceNodePorts(cp)
 			return idx, canonCSNs(cp)
@@ -278,10 +313,13 @@ func configSubject(short, kind string, topic pbsubscribe.Topic, name string) *su
 		Name: short + ":" + name, Class: "config",
 		newView: func() submatview.View { return &configentry.ConfigEntryView{} },
 		request: namedReq(topic, name),
-		direct: func(s *state.Store) (uint64, string) {
+		direct: func(s *state.Store, authz acl.Authorizer) (uint64, string) {
 			idx, e, err := s.ConfigEntry(nil, kind, name, defaultMeta)
 			if err != nil {
 				return idx, "error: " + err.Error()
+			}
+			if e != nil && authz != nil && e.CanRead(authz) != nil {
+				e = nil
 			}
 			return idx, canonEntry(e)
 		},
@@ -294,10 +332,19 @@ func configListSubject(short, kind string, topic pbsubscribe.Topic) *subject {
 		Name: short + ":*", Class: "config-list",
 		newView: func() submatview.View { return configentry.NewConfigEntryListView(kind, *defaultMeta) },
 		request: wildcardReq(topic),
-		direct: func(s *state.Store) (uint64, string) {
+		direct: func(s *state.Store, authz acl.Authorizer) (uint64, string) {
 			idx, es, err := s.ConfigEntriesByKind(nil, kind, defaultMeta)
 			if err != nil {
 				return idx, "error: " + err.Error()
+			}
+			if authz != nil {
+				var vis []structs.ConfigEntry
+				for _, e := range es {
+					if e.CanRead(authz) == nil {
+						vis = append(vis, e)
+					}
+				}
+				es = vis
 			}
 			return idx, canonEntries(es)
 		},
@@ -312,7 +359,7 @@ func serviceListSubject() *subject {
 		Name: "svclist:*", Class: "service-list",
 		newView: func() submatview.View { return newSvcListView() },
 		request: wildcardReq(pbsubscribe.Topic_ServiceList),
-		direct: func(s *state.Store) (uint64, string) {
+		direct: func(s *state.Store, authz acl.Authorizer) (uint64, string) {
 			idx, l, err := s.ServiceNamesOfKind(nil, structs.ServiceKindTypical)
 			if err != nil {
 				return idx, "error: " + err.Error()
@@ -320,6 +367,13 @@ func serviceListSubject() *subject {
 			seen := map[string]bool{}
 			var names []string
 			for _, n := range l {
+				if authz != nil {
+					var ac acl.AuthorizerContext
+					n.Service.EnterpriseMeta.FillAuthzContext(&ac)
+					if authz.ServiceRead(n.Service.Name, &ac) != acl.Allow {
+						continue
+					}
+				}
 				if !seen[n.Service.Name] {
 					seen[n.Service.Name] = true
 					names = append(names, n.Service.Name)
